@@ -34,6 +34,7 @@ type bEngine struct {
 	loopAbs    bool
 	allocMax   *big.Int
 	nilable    bool // pointer fields of symbolic inputs have a symbolic nil-ness
+	uptoLoop     bool   // prefix contract: the path ends at the first loop header of the function under contract
 	callbackPure string // non-empty: calls of function values are assumed not to touch polynomial storage (clause `callback`)
 	nilsafe    bool // dereferences of possibly-nil pointers are obligations (nil-deref)
 	safety     bool // the contract asks for the run-time-panic obligations of make and slicing
